@@ -284,6 +284,7 @@ class MQTTBaseProtocol(Protocol):
         self.IDLE        = IdleState(self)
         self.CONNECTING  = ConnectingState(self)
         self.CONNECTED   = ConnectedState(self)
+        self.DISCONNECTING = BaseState(self)    # DISCONNECT sent: refuses and ignores everything
         self.state       = self.IDLE
         self.factory     = factory
         self._initialT   = self.TIMEOUT_INITIAL # Initial timeout for retransmissions
@@ -511,13 +512,7 @@ class MQTTBaseProtocol(Protocol):
 
     def connectionLost(self, reason):
         log.debug("--- Connection to MQTT Broker lost")
-        if self._pingReq.timer:
-            self._pingReq.timer.stop()
-            self._pingReq.timer = None
-        if self._pingReq.alarm:
-            if self._pingReq.alarm.active():    # it has already run if the ping timed out
-                self._pingReq.alarm.cancel()
-            self._pingReq.alarm = None
+        self._stopKeepalive()
         self.doConnectionLost(reason)
         self.state = self.IDLE
         # The disconnect callback is invoked in another reactor loop cycle
@@ -676,6 +671,11 @@ class MQTTBaseProtocol(Protocol):
         log.debug("==> {packet:7}",packet="DISCONNECT")
         self.transport.write(request.encode())
         self.transport.loseConnection()
+        # Nothing may follow DISCONNECT on the wire: stop the keepalive and the
+        # retransmissions and refuse further requests until the transport is gone.
+        self._stopKeepalive()
+        self._cancelAlarms()
+        self.state = self.DISCONNECTING
 
     # ------------------------------------------------------------------------
 
@@ -724,6 +724,28 @@ class MQTTBaseProtocol(Protocol):
         To be subclassed
         '''
         pass
+
+    # ------------------------------------------------------------------------
+
+    def _cancelAlarms(self):
+        '''
+        Cancel pending retransmission alarms. To be subclassed
+        '''
+        pass
+
+    # ------------------------------------------------------------------------
+
+    def _stopKeepalive(self):
+        '''
+        Stops the PINGREQ loop and its pending timeout
+        '''
+        if self._pingReq.timer:
+            self._pingReq.timer.stop()
+            self._pingReq.timer = None
+        if self._pingReq.alarm:
+            if self._pingReq.alarm.active():    # it has already run if the ping timed out
+                self._pingReq.alarm.cancel()
+            self._pingReq.alarm = None
 
     # --------------
     # Helper methods
